@@ -59,11 +59,22 @@ def impl_diffnb(a, b):
             return ('err', exc_class(e), '%s: %s' % (type(e).__name__, str(e)[:200])), memo
 
 
+Raised = c02.Raised
+
+
 def impl_patchnb(a, d):
+    """the diff object is applied twice: ('ok', first result, second result, diff serialises the same afterwards)"""
     import nbdime
     from nbdime.diff_utils import to_diffentry_dicts
     try:
-        return ('ok', plain(nbdime.patch_notebook(__import__('nbformat').from_dict(copy.deepcopy(a)), to_diffentry_dicts(copy.deepcopy(d)))))
+        dd = to_diffentry_dicts(copy.deepcopy(d))
+        before = json.dumps(plain(dd), sort_keys=True)
+        r1 = plain(nbdime.patch_notebook(__import__('nbformat').from_dict(copy.deepcopy(a)), dd))
+        try:
+            r2 = plain(nbdime.patch_notebook(__import__('nbformat').from_dict(copy.deepcopy(a)), dd))
+        except Exception as e:
+            r2 = Raised(type(e).__name__)
+        return ('ok', r1, r2, before == json.dumps(plain(dd), sort_keys=True))
     except Exception as e:
         return ('err', exc_class(e), str(e)[:200])
 
@@ -146,6 +157,10 @@ def check_cases(ctx, cases, cfg=None, prop=None):
                 ctx.violation('patch_notebook(A, diff_notebooks(A,B)) != B', dict(base, kind='roundtrip', diff=enc_diff(d), got=enc(ip[1])))
             elif 'ok' in m_patch and canon(dec(m_patch['ok'])) != canon(ip[1]):
                 mismatches.append(dict(base, kind='corr-patch', impl=enc(ip[1]), model=m_patch))
+            if ip[0] == 'ok' and canon(ip[1]) == canon(b) and (not ip[3] or isinstance(ip[2], Raised) or canon(ip[2]) != canon(b)):
+                ctx.violation('the diff no longer describes A -> B after patch_notebook applied it once (%s)' %
+                              ('second application: %s' % ('raised ' + ip[2].name if isinstance(ip[2], Raised) else 'different notebook') if ip[3] else 'it serialises differently'),
+                              dict(base, kind='reapply', diff=enc_diff(d)))
             if not d and canon(a) != canon(b):
                 ctx.violation('empty diff for notebooks that differ', dict(base, kind='empty-diff', got=enc(a)))
             if d and canon(a) == canon(b):
